@@ -284,7 +284,7 @@ impl Check for C01 {
         ]
     }
     fn components(&self) -> Value {
-        json!({"real": ["Connection::listen", "CipherStream", "crypto (RSA key pair, decrypt, verify token)", "cookie sign/verify", "passage-packets codec (server side)"],
+        json!({"real": ["Connection::listen", "Listener::listen / handle (listener mode)", "CipherStream", "crypto (RSA key pair, decrypt, verify token)", "cookie sign/verify", "passage-packets codec (server side)"],
                "stub": ["transport (SimPipe, fault-free here)", "client (independent)", "authentication/discovery/filter/strategy/status services (scripted)", "wall clock"]})
     }
     fn count(&self, tier: Tier) -> u64 {
